@@ -42,6 +42,9 @@ void ServerPrivate::process(QTcpSocket *socket)
 {
     Socket *httpSocket = new Socket(socket, this);
 
+    // The socket is deleted once the client has disconnected
+    connect(httpSocket, &Socket::disconnected, httpSocket, &Socket::deleteLater);
+
     // Wait until the socket finishes reading the HTTP headers before routing
     connect(httpSocket, &Socket::headersParsed, [this, httpSocket]() {
         if (handler) {
